@@ -3,7 +3,7 @@ From Coq Require Import ZArith.
 (* Integer terms and constraints as c-inference builds them with pysmt (Symbol, Int, Plus, minus, LE/LT/GE/GT, Not, And),
    with their evaluation under an assignment of the symbols.  Used by the files generated from c_inference.py. *)
 Inductive symidx := SIdx (i:Z) | SQuery.
-Inductive sym := SEta (i:Z) | SMv (x:symidx) | SMf (x:symidx).
+Inductive sym := SEta (i:Z) | SMv (x:symidx) | SMf (x:symidx) | SGp (i:Z) | SGm (i:Z).   (* eta_i, mv_x, mf_x of c-inference; gamma+_i, gamma-_i of c-revision *)
 Inductive iterm := IInt (z:Z) | ISym (s:sym) | IPlus (l:list iterm) | IMinus (a b:iterm).
 Inductive icon := ILE (a b:iterm) | ILT (a b:iterm) | IGE (a b:iterm) | IGT (a b:iterm) | INot (c:icon) | IAnd (l:list icon).
 Definition zsum (l:list Z) : Z := fold_right Z.add 0%Z l.
@@ -20,3 +20,5 @@ Definition csp_sat (sg:sym -> Z) (cs:list icon) : bool := forallb (ceval sg) cs.
 (* a pysmt Solver that receives integer constraints: the list of its assertions; solve() is an oracle parameter of the
    generated function (m_isolve), assumed by the tie theorems to decide solvability of the constraint list over Z *)
 Definition is_add (s:list icon) (c:icon) : list icon := s ++ [c].
+(* term.is_symbol() *)
+Definition iterm_is_sym (t:iterm) : bool := match t with ISym _ => true | _ => false end.
